@@ -239,14 +239,26 @@ func decoderOptions(c *an.Ctx, rule string, scope map[*ssa.Function][]an.CallEdg
 									follow(u)
 								}
 							}
-						} else if x.Val == v {
-							bad = append(bad, "the decoder is stored in "+an.Prov(x.Addr))
 						}
 					case ssa.CallInstruction:
 						cc := x.Common()
 						m := cc.StaticCallee()
 						if m == nil || len(cc.Args) == 0 || cc.Args[0] != v || m.Signature.Recv() == nil {
-							bad = append(bad, "the decoder is handed to "+an.ShortCallee(cc))
+							// handed to a helper of the module: its uses of the parameter are uses of the decoder
+							for i, a := range cc.Args {
+								if a != v {
+									continue
+								}
+								for _, h := range p.Callees(cc) {
+									pi := i
+									if cc.IsInvoke() {
+										pi = i + 1
+									}
+									if an.InModule(h) && h.Blocks != nil && pi < len(h.Params) {
+										follow(h.Params[pi])
+									}
+								}
+							}
 							continue
 						}
 						switch {
@@ -254,7 +266,9 @@ func decoderOptions(c *an.Ctx, rule string, scope map[*ssa.Function][]an.CallEdg
 						case m.Name() == "UseNumber":
 							bad = append(bad, "UseNumber is set ("+p.Pos(x.Pos())+"): numbers of a JSON document arrive as json.Number, which has kind string but is not a string — the duration hook of the definition decoder asserts data.(string) and panics on a numeric timeout")
 						default:
-							bad = append(bad, "option "+m.Name()+" is outside the reviewed set ("+p.Pos(x.Pos())+")")
+							// other configuring calls change which documents are accepted, not the dynamic types the
+							// accepted ones arrive with: not a crash matter
+							c.Note(rule, an.Short(fn)+":"+callee.Pkg.Pkg.Name()+".Decoder."+m.Name(), x.Pos(), "decoder option %s is set (changes which documents are accepted, not the types they arrive with)", m.Name())
 						}
 						// chained configuration: x := dec.Opt()
 						if xv, ok := x.(ssa.Value); ok && types.Identical(xv.Type(), v.Type()) {
@@ -265,7 +279,7 @@ func decoderOptions(c *an.Ctx, rule string, scope map[*ssa.Function][]an.CallEdg
 			}
 			follow(call)
 			bad = dedup(bad)
-			c.Check(len(bad) == 0, rule, an.Short(fn)+":"+callee.Pkg.Pkg.Name()+".NewDecoder", call.Pos(), "only Decode is called on the decoder (default options)", strings.Join(bad, "; "))
+			c.Check(len(bad) == 0, rule, an.Short(fn)+":"+callee.Pkg.Pkg.Name()+".NewDecoder", call.Pos(), "no configuring call on the decoder changes the types a document arrives with", strings.Join(bad, "; "))
 		})
 	}
 	if n == 0 {
